@@ -107,7 +107,10 @@ func (s *shutdownContext) handleProcessExit(termination supvmodel.ProcessTermina
 	exitedChannel, found := s.getExitedChannel(name)
 
 	if !found {
-		log.Panicf("Unable to find an exitedChannel for '%s', it should have been created just after it was execed.", name)
+		// The channel is created before the process is started, so this is the exit of a
+		// process that an earlier shutdown gave up waiting for and forgot: nobody waits for it.
+		log.Warnf("Unable to find an exitedChannel for '%s', ignoring its exit.", name)
+		return
 	}
 	// we close the channel so that whoever is blocked on it
 	// or will try to block on it in the future unblocks immediately
